@@ -915,6 +915,27 @@ pub fn matrix_behaviour(r: &mut Rng, t: &mut Trace) {
             t.run(&mut w, op);
         }
     }
+    // --- C09 / C05 on provide: a native leg declared as a cw20 token spelled like the denom (kind confusion in the
+    //     declaration): nothing is attached for it, or the coins are attached anyway - no share may be credited for it
+    for i in 0..np {
+        let (a0, a1) = pair_infos(&w, i);
+        let paddr = w.pairs[i].addr.clone();
+        let amount = mag / 500 + 7;
+        for (x, y) in [(a0.clone(), a1.clone()), (a1.clone(), a0.clone())] {
+            if !is_native(&x) { continue; }
+            let forged = json!({"token": id_of(&x)});
+            for with_funds in [false, true] {
+                let mut f: Vec<(String, u128)> = vec![];
+                if with_funds { f.push((id_of(&x), amount)); }
+                if is_native(&y) { f.push((id_of(&y), amount * 3)); }
+                f.sort();
+                let fv: Vec<Value> = f.into_iter().map(|(d, a)| json!([d, st(a)])).collect();
+                let op = json!({"op": "pair_provide", "pair": paddr, "caller": "bob", "assets": [asset(&forged, amount), asset(&y, amount * 3)],
+                                "tol": nul(), "receiver": nul(), "funds": fv});
+                t.run(&mut w, op);
+            }
+        }
+    }
     // --- C14: every privileged / internal entry point x caller role, before and after an ownership transfer
     for phase in 0..2 {
         let p0 = w.pairs[0].addr.clone();
@@ -1330,6 +1351,14 @@ pub fn registry_behaviour(r: &mut Rng, t: &mut Trace, max_pairs: usize, index: u
             t.run(&mut w, json!({"op": "q_native_decimals", "denom": alias}));
         }
         t.run(&mut w, json!({"op": "q_fac_pair", "infos": [nat(&alias), tok(&alias)]}));
+    }
+    // one live cw20 token named twice, in two letter cases (addresses canonicalise case-insensitively): still two identical
+    // assets, in either order
+    {
+        let a = w.tokens[2].clone();
+        for infos in [json!([tok(&a), tok(&a.to_uppercase())]), json!([tok(&a.to_uppercase()), tok(&a)])] {
+            t.run(&mut w, json!({"op": "fac_create_pair", "caller": "owner", "infos": infos, "commission": nul(), "whitelist": ["alice"], "min0": st(0), "min1": st(0)}));
+        }
     }
     // ownership is handed over: the former owner's re-registration must fail, the new owner's must reach every pair
     // holding the denom (first and second position), and the new owner can create pairs
